@@ -14,11 +14,34 @@ Where the code has a defect w.r.t. the property the model has it too: the full s
   the base-most template of an inheritance chain is the inheriting template;
 * F-C07-5 `lookup_normalised_partial` / `…_counterexample` – `put_string` entries are matched by the exact spelling;
 * F-C07-6 `ns_getattr_is_chain` (guard `key ∉ reservedAttrs`) / `ns_member_unreachable_for_every_reserved_name`,
-  `ns_member_reachable_counterexample` – defs named like attributes of the `Namespace` classes;
+  `ns_member_reachable_counterexample` – defs named like attributes of the `Namespace` classes.  Naming: here the guarded
+  statement and the refutation do not follow the `_partial`/`_counterexample` convention – `ns_getattr_is_chain` *is* the
+  guarded (partial) form, and `ns_member_unreachable_for_every_reserved_name` is the universal form of the refutation
+  (it holds for every reserved name, set and heap, not just on a witness); `ns_member_reachable_counterexample` is the
+  concrete witness;
 * F-C07-7 `get_namespace_context_partial` / `…_counterexample` – `get_namespace()` keeps the caller's `parent`/`next`;
 * F5 `namespace_of_tag_partial` / `…_counterexample` – the per-render namespace cache is keyed by the non-injective module id.
 
-Everything else is proved without guard.
+Everything else is proved without guard, in the sections below:
+lookup order (`ns_inline_first` … `ns_lookup_order`, `ns_lookup_order_first_hit`, `ns_lookup_order_miss`); `import=` ahead of
+the context in the plain and the `strict_undefined` code path (`import_shadows_context`, `import_wins_over_any_context`,
+`import_shadows_context_strict`, `strict_undefined_name_error`, `import_named_is_getattr`); `import="*"` (`star_import_set…`,
+`star_import_populate`); include arguments (`include_args_first_then_context`, `include_never_passes_context`,
+`include_only_callee_parameters`, `include_page_arg_source`); include independence (`clean_drops_inheritance_tokens`,
+`include_is_independent`, `include_starts_from_clean_context`); URIs (`adjust_absolute`, `adjust_relative`, `join_relative`,
+`adjust_no_caller`, `adjust_total`, `resolveChain_snoc`, `include_tag_relative_to_module`, `uri_relative_to_caller`,
+`api_relative_to_receiver`, `get_namespace_copies_context`, `get_namespace_memo_keyed_by_receiver`); unresolvable URIs
+(`unresolvable_raises_lookup_exception`, `empty_uri_raises_lookup_exception`, `include_unresolvable_raises`,
+`namespace_unresolvable_raises`); containment (`escaping_uri_raises_lookup_exception`, `served_file_is_below_root`, using
+C09's `lookup_contained_normalised`); defs written inside `<%namespace>` (`inline_def_runs`,
+`inline_def_name_is_context_lookup`).
+
+Regenerated facts (Generated/NsFlow.lean) pinned by named obligations: `codegen_import_first_obligation` (both import
+branches of `write_variable_declares`), `include_call_sites_obligation` (both call sites of `_include_file`).  **No**
+regenerated flag of C07 pins the order *normalise, then `startswith("..")`* inside `Template.__init__`'s URI check, which
+`templateCheck` transcribes: C09's `uri_check_unconditional_and_first` (Generated/PathCfg.lean, regenerated on a C07 run as
+well because this file imports Props/C09) pins the *position* of the check, and the *behaviour* is pinned by the
+correspondence streams (`corr.render` with files planted outside the lookup directories) and the oracle's escaping URIs.
 -/
 namespace MakoModel.C07
 open MakoModel.Namespace MakoModel.Path
